@@ -641,7 +641,7 @@ static int do_campaign(const Args& a) {
       // a violation that matches a listed known finding is counted and the search continues behind it
       std::string known_key;
       for (auto& kf : a.known)
-        if (o.kind == kf.first && spec.cfgname.compare(0, kf.second.size(), kf.second) == 0) known_key = kf.first + ":" + spec.cfgname;
+        if (o.kind == kf.first && spec.cfgname.find(kf.second) != std::string::npos) known_key = kf.first + ":" + spec.cfgname;
       if (!known_key.empty()) {
         known_hits[known_key]++;
         if (known_saved[known_key]) continue;
